@@ -746,6 +746,47 @@ def rule_modifier_names(ctx: Ctx) -> RuleResult:
     return rr
 
 
+def rule_alarm_handle_sentinel(ctx: Ctx) -> RuleResult:
+    """The completion timeout is an alarm; its handle is kept in an attribute and None means 'no alarm pending'.  What
+    alarm() returns is the event loop's business (the EventLoop protocol says 'a handle') - a loop that numbers its
+    alarms hands out 0 first.  Every test of an attribute that is assigned an alarm() result compares with None by
+    identity: with a truthiness test the pending alarm of a lone ESC is not cancelled when the rest of the sequence
+    arrives in time, fires later and decodes the stale bytes again ('up', then 'esc'; fix 2843810)."""
+    p = ctx.p
+    rr = RuleResult("SENTINEL", "C05.19", "an attribute holding an event-loop alarm handle is tested against None by identity, never for truthiness", floor=3)
+    mods = [mod for mod in p.modules.values() if mod.name.startswith("urwid.display") or mod.name == "urwid.event_loop.main_loop"]
+    attrs = set()
+    for mod in mods:
+        for fi in mod.functions:
+            for n in fi.own_nodes():
+                if isinstance(n, ast.Assign) and isinstance(n.value, ast.Call) and isinstance(n.value.func, ast.Attribute) and n.value.func.attr == "alarm":
+                    attrs |= {t.attr for t in n.targets if isinstance(t, ast.Attribute)}
+    for mod in mods:
+        for fi in mod.functions:
+            for n in fi.own_nodes():
+                tests = []
+                if isinstance(n, (ast.If, ast.While, ast.IfExp)):
+                    tests.append(n.test)
+                for t in tests:
+                    bare = []
+                    stack = [t]
+                    while stack:
+                        x = stack.pop()
+                        if isinstance(x, ast.BoolOp):
+                            stack += x.values
+                        elif isinstance(x, ast.UnaryOp) and isinstance(x.op, ast.Not):
+                            stack.append(x.operand)
+                        elif isinstance(x, ast.Attribute) and x.attr in attrs:
+                            bare.append(x)
+                    ident_ok = [c for c in ast.walk(t) if isinstance(c, ast.Compare) and isinstance(c.left, ast.Attribute) and c.left.attr in attrs and isinstance(c.ops[0], (ast.Is, ast.IsNot))]
+                    for b in bare:
+                        rr.inst(f"{short(fi)}: {norm(t, 40)}", True)
+                        rr.add(finding("SENTINEL", fi, t, f"`{norm(t, 60)}` tests the alarm handle `{ast.unparse(b)}` for truthiness: an event loop may hand out a falsy handle (0 for its first alarm); the pending completion alarm is then taken for 'none pending', not removed, and fires after the sequence was already decoded - the stale bytes are decoded a second time", construct=f"{fi.name}: alarm handle tested for truthiness"))
+                    for c in ident_ok:
+                        rr.inst(f"{short(fi)}: {norm(c, 40)}", True, {"test": f"{short(fi)}: {norm(c, 50)}"} if len(rr.samples) < 6 else None)
+    return rr
+
+
 def rule_wake_reason(ctx: Ctx) -> RuleResult:
     """The synchronous completion step waits complete_wait on *all* input descriptors - the terminal and the pipe
     the SIGWINCH handler writes to.  Only the terminal staying silent for complete_wait means 'the timeout expired';
@@ -834,6 +875,7 @@ def run(ctx: Ctx):
     out.append(rule_rehook_rearms(ctx))
     out.append(rule_wake_reason(ctx))
     out.append(rule_modifier_names(ctx))
+    out.append(rule_alarm_handle_sentinel(ctx))
     from ..rules import nameprefix
 
     out.append(nameprefix.run_nameprefix(ctx.p, "C05.14", ("urwid.display", "urwid.util", "urwid.event_loop.main_loop"), floor=3))
@@ -845,6 +887,7 @@ from ..mutants import Mut  # noqa: E402
 _E = "urwid/display/escape.py"
 _R = "urwid/display/_raw_display_base.py"
 MUTANTS = [
+    Mut("alarm-handle-truthiness", "urwid/display/_raw_display_base.py", "urwid.display._raw_display_base.Screen.parse_input", "if self._input_timeout is not None and event_loop:", "if self._input_timeout and event_loop:", "SENTINEL|display._raw_display_base.Screen.parse_input|parse_input: alarm handle tested for truthiness"),
     Mut("sync-completion-ignores-wake-reason", "urwid/display/_raw_display_base.py", "urwid.display._raw_display_base.Screen.get_input", "wait_for_more=len(codes) > pending or resize_only)", "wait_for_more=len(codes) > pending)", "FLOW|display._raw_display_base.Screen.get_input|get_input: wake-up reason not part of wait_for_more"),
     Mut("twin-sync-completion-wake-reason-inline", "urwid/display/_raw_display_base.py", "urwid.display._raw_display_base.Screen.get_input", "wait_for_more=len(codes) > pending or resize_only)", "wait_for_more=len(codes) > pending or ready == [self._resize_pipe_rd.fileno()])", twin=True),
     Mut("rehook-forgets-pending-bytes", "urwid/display/_posix_raw_display.py", "urwid.display._posix_raw_display.Screen.hook_event_loop", "        if self._partial_codes:\n            # an incomplete sequence is still pending and unhook_event_loop() removed its completion alarm:\n            # parse again (with whatever arrived since), which sets a new alarm or decodes what is there\n            event_loop.alarm(0, wrapper)\n", "", "PAIR|display._posix_raw_display.Screen.hook_event_loop|pending bytes lose their timeout across unhook / hook"),
